@@ -539,6 +539,12 @@ class Flow:
                     continue
                 st = b.blocks[ubb]['stmts'][uidx]
                 r = st['dst']['l']
+                # `&mut l.out` cannot write `l.path`: a borrow of one field does not touch a sibling field that is read
+                bp_ = [(e['name'] if e['name'] != '' else str(e['f'])) for e in st['rv'].get('p', {}).get('proj', []) if isinstance(e, dict) and 'f' in e]
+                rp_ = [e for e in path if not _is_mark(e)]
+                n_ = min(len(bp_), len(rp_))
+                if n_ and bp_[:n_] != rp_[:n_]:
+                    continue
                 for (cbb, cidx, crole) in self._transitive_uses(r):
                     if cidx == 'term' and crole.startswith('arg:'):
                         t = b.blocks[cbb]['term']
